@@ -77,7 +77,18 @@ func urlReplay(s *Summary, raw json.RawMessage) {
 			if strict {
 				r = newRouter(rux.StrictLastSlash)
 			}
-			r.GET("/zz/{decoy}/{d2}/{d3}/{d4}", nopHandler) // decoys registered before and after
+			// a caching router all of whose routes are route objects attached with AttachTo
+			attachOnly := it%3 == 2 && style%3 == 1
+			if attachOnly {
+				opts := cachingOpts(4)
+				if strict {
+					opts = append(opts, rux.StrictLastSlash)
+				}
+				r = newRouter(opts...)
+				rux.NewRoute("/zz/{decoy}/{d2}/{d3}/{d4}", nopHandler, "GET").AttachTo(r)
+			} else {
+				r.GET("/zz/{decoy}/{d2}/{d3}/{d4}", nopHandler) // decoys registered before and after
+			}
 			var target *rux.Route
 			grouped := it%2 == 1 && style%3 == 0
 			if grouped {
@@ -85,11 +96,19 @@ func urlReplay(s *Summary, raw json.RawMessage) {
 				target = rux.NewNamedRoute("target", c.Pat, nopHandler, "GET")
 				_ = target.ToURL()
 				r.Group("/v2", func() { target.AttachTo(r) })
+			} else if attachOnly {
+				target = rux.NewNamedRoute("target", c.Pat, nopHandler, "GET")
+				target.AttachTo(r)
 			} else {
 				target = r.AddNamed("target", c.Pat, nopHandler)
 			}
-			r.GET("/zz", nopHandler)
-			r.AddNamed("zz-named", "/zz/named", nopHandler)
+			if attachOnly {
+				rux.NewRoute("/zz", nopHandler, "GET").AttachTo(r)
+				rux.NewNamedRoute("zz-named", "/zz/named", nopHandler, "GET").AttachTo(r)
+			} else {
+				r.GET("/zz", nopHandler)
+				r.AddNamed("zz-named", "/zz/named", nopHandler)
+			}
 			var u *url.URL
 			desc := func(aspect, what string) map[string]any {
 				return map[string]any{"kind": "url", "aspect": aspect, "pattern": c.Pat, "values": want, "style": style, "what": what}
@@ -166,8 +185,19 @@ func urlReplay(s *Summary, raw json.RawMessage) {
 				s.mismatch(desc("roundtrip", fmt.Sprintf("URL %q built for %q %v cannot be requested: %v", u.String(), c.Pat, want, err)), c)
 				return
 			}
-			route, ps, _ := r.Match("GET", req.URL.Path)
-			if route != target {
+			var route *rux.Route
+			var ps rux.Params
+			var mpan any
+			func() {
+				defer func() { mpan = recover() }()
+				route, ps, _ = r.Match("GET", req.URL.Path)
+				route, ps, _ = r.Match("GET", req.URL.Path) // (and once more: from the cache, where there is one)
+			}()
+			if mpan != nil {
+				s.mismatch(desc("roundtrip", fmt.Sprintf("URL %q built for %q %v: the lookup panicked: %v", u.String(), c.Pat, want, mpan)), c)
+				return
+			}
+			if route != target && !(attachOnly && route != nil && route.Name() == "target") {
 				got := "no route"
 				if route != nil {
 					got = route.Path()
